@@ -111,7 +111,7 @@ static void drv_setup(int argc, char **argv)
     if (argc > 5) MAXALLOC = atoi(argv[5]);
     if (NS > MAXO || NW > MAXO || NU > MAXO) exit(64);
 }
-static void drv_header(jb_t *b) { jb_printf(b, "\"ns\":%d,\"nw\":%d,\"nu\":%d", NS, NW, NU); }
+static void drv_header(jb_t *b) { jb_printf(b, "\"ns\":%d,\"nw\":%d,\"nu\":%d,\"faults\":%s", NS, NW, NU, FAULTS ? "true" : "false"); }
 static void drv_reset(void)
 {
     int i;
